@@ -638,6 +638,16 @@ func (oracleC18) Step(x *OCtx, t *Trans) []Violation {
 			}
 		}
 	}
+	if (kind == "call" || kind == "mcreate") && t.Res.OK() {
+		// two contexts are two records: a creation that succeeds must not land on the key of a context that exists
+		cid := hexs(x.Sc.CtxID(t.Act.Tmpl))
+		if _, had := t.Pre.Ctxs[cid]; had {
+			add("distinct-contexts-have-distinct-keys", x.Sc.Templates[t.Act.Tmpl].Name+"/replaces-"+x.Sc.ctxName(cid),
+				fmt.Sprintf("%s succeeded although context %s already exists: the new record was written to the same key", t.Act.Name, x.Sc.ctxName(cid)))
+		} else {
+			x.Wit("C18:context-created-under-a-fresh-key")
+		}
+	}
 	if kind == "E" {
 		var newIDs []string
 		for _, id := range t.Post.ReqIDs {
